@@ -4,7 +4,7 @@
    Constant, no other Extract Inductive. *)
 Require Extraction.
 Require Import ExtrOcamlBasic.
-From FV Require Import Base.Serial Session.Window Link.SenderCredit Base.Bytes Codec.Value Codec.Enc Codec.Dec Codec.Spec Frame.Transfer Lib.LengthDelimited Session.Disposition Lib.Slab Session.Ids Conn.Lifecycle Conn.Timers Link.Receiver Session.SessLife Auth.SaslListener Frame.SessionSplit Link.LinkLife.
+From FV Require Import Base.Serial Session.Window Link.SenderCredit Base.Bytes Codec.Value Codec.Enc Codec.Dec Codec.Spec Frame.Transfer Lib.LengthDelimited Session.Disposition Lib.Slab Session.Ids Conn.Lifecycle Conn.Timers Link.Receiver Session.SessLife Auth.SaslListener Frame.SessionSplit Link.LinkLife Link.SendCancel Txn.Manager.
 Extraction Language OCaml.
 Separate Extraction
   Window.run Window.step Window.begun_for_oracle
@@ -19,4 +19,6 @@ Separate Extraction
   SessLife.sstep
   SaslListener.lstep
   SessionSplit.session_split
-  LinkLife.lkstep.
+  LinkLife.lkstep
+  SendCancel.step SendCancel.init
+  Manager.step Manager.enabled Manager.init.
